@@ -84,6 +84,33 @@ Theorem C06_written_first : forall w lg m l,
 Proof. exact written_first_thm. Qed.
 Print Assumptions C06_written_first.
 
+(* "so the final message is never left in a buffer", for every stack of WriteSyncer combinators between an
+   IO core and its sinks.  [ws] is such a stack with its state: recording sinks whose Write only stages the
+   bytes and whose Sync commits them, below any nesting of BufferedWriteSyncers (any Size, stopped or not,
+   anything in their buffers), zapcore.Lock, AddSync and multi-WriteSyncers; [sk_run ns sy s] = the Writes of
+   lengths ns, then (sy) a Sync; [sk_pending 0 s] = per sink, the bytes written at the top that it has not
+   committed.
+   A Sync reaches every sink: after it, whatever was written before and however long, nothing is pending *)
+Theorem C06_sync_reaches_every_sink : forall s ns, Forall (eq 0) (sk_pending 0 (sk_run ns true s)).
+Proof. exact (fun s ns => sync_reaches_every_sink s ns 0). Qed.
+Print Assumptions C06_sync_reaches_every_sink.
+(* no stack loses or duplicates a byte (per sink: on the way + committed grows by what is written at the top),
+   so a sink with nothing pending has committed everything that was ever written *)
+Theorem C06_sink_stack_conserves : forall s ns sy,
+  sk_held 0 (sk_run ns sy s) = map (Z.add (zsum ns)) (sk_held 0 s).
+Proof. exact (fun s ns sy => stack_conserves s ns sy 0). Qed.
+Print Assumptions C06_sink_stack_conserves.
+(* before control is lost, for every sink stack: [st] gives every IO leaf its stack in any state, [lens] the
+   lengths of the encoded entries (any).  When the terminal action runs, every sink below every core that
+   accepted the entry has nothing pending, i.e. it has committed everything that was ever written to it *)
+Theorem C06_committed_before_control_is_lost : forall w lg m l lens st,
+  In m methods -> can_log m l = true -> terminal lg l ->
+  let st' := run_evs lens st (fst (log_call w lg all_io (fam_of m) l)) in
+  forall id, In id (delivered w (lcore lg) l) ->
+    Forall (eq 0) (sk_pending 0 (st' id)) /\ map (Z.add 0) (sk_committed (st' id)) = sk_held 0 (st' id).
+Proof. exact committed_first_thm. Qed.
+Print Assumptions C06_committed_before_control_is_lost.
+
 (* zapio.Writer (not among the front ends the property enumerates) returns early from Write when its
    level is disabled, also at Panic/Fatal: the statement holds for it only when the level is enabled
    (known finding zapio-terminal-disabled) *)
@@ -127,5 +154,17 @@ Example C06_example_blank_stdlog :
   front_call (fun _ => InvalidL) {| lcore := Nop; dev := false; on_panic := HNil; on_fatal := HNil |} all_io
              {| m_recv := RStdLog; m_kind := KLog; m_suffix := SNone |} PanicL [] = ([], Some APanic, Some []) /\
   model (SL [SL [SZ 1]; SL []; SZ 0; SL [SZ 0]; SL [SZ 0]; SZ 0; SL [SL [SZ 4; SZ 0; SZ 0; SZ 4; SB []]]]) =
-  SL [SL [SL [SL []; SL [SZ 0; SB []]]]; SL []].
+  SL [SL [SL [SL []; SL [SZ 0; SB []]; SL []]]; SL []].
 Proof. vm_compute. split; reflexivity. Qed.
+(* a 300-byte Fatal entry after a 20-byte Info entry, through BufferedWriteSyncer{Size: 128} around a stopped
+   BufferedWriteSyncer around Lock around a multi-WriteSyncer of a sink and a BufferedWriteSyncer{Size: 64}
+   over a sink: the Info entry sits in the outer buffer (20 bytes pending for both sinks), the Fatal entry
+   pushes it out and goes past every buffer (320 bytes staged in both sinks), and the Sync commits them *)
+Definition ex_stack : ws :=
+  SkBuf 128 false 0 (SkBuf 0 true 0 (SkLock (SkMulti [SkAddSync (SkSink 0 0); SkBuf 64 false 0 (SkSink 0 0)]))).
+Example C06_example_stack :
+  sk_pending 0 (sk_write 20 ex_stack) = [20; 20] /\
+  sk_pending 0 (sk_write 300 (sk_write 20 ex_stack)) = [320; 320] /\
+  sk_pending 0 (sk_sync (sk_write 300 (sk_write 20 ex_stack))) = [0; 0] /\
+  sk_committed (sk_sync (sk_write 300 (sk_write 20 ex_stack))) = [320; 320].
+Proof. vm_compute. repeat split; reflexivity. Qed.
